@@ -139,7 +139,7 @@ Ltac eqb_cases :=
          | H : context [(?a =? ?b)%nat] |- _ => destruct (Nat.eqb_spec a b); subst
          end.
 
-Ltac prj := cbn [status join_thread detached lockh result main cb gh
+Ltac prj := cbn [status join_thread detached lockh result main cb gh cancelled cancel_enabled set_cancelled set_cancel_enabled creq acted g_creq g_acted
                  set_status set_jt set_detached set_lockh set_result set_main set_cb set_gh unlock new_thread
                  runs garg got retv claimed rdone reaped desc_alloc desc_freed stack_alloc stack_freed stack_sz t_ret t_ready2
                  g_started g_returned g_claim g_rdone g_reap g_free_stack g_ready2 tnone ghost0 thread_main0] in *.
@@ -223,6 +223,11 @@ Record Inv (s : state) : Prop := mkInv {
              join_thread (gt s t) = Some j /\ before_readjoin (gt s t) = true;
   i_cbjs : forall j t, cb (gt s j) = CbJoinSet t -> before_readjoin (gt s t) = true;
   i_noself : forall j, join_pc (main (gt s j)) j = false;
+  (* cancellation: the target of a cancel in progress exists; a pending request and a cancellation acted on
+     both come from a myth_cancel that named this very incarnation (creation resets the flags) *)
+  i_ktarget : forall j t, main (gt s j) = KCancel t -> main (gt s t) <> NoThread;
+  i_creq : forall t, cancelled (gt s t) = true -> creq (gh (gt s t)) = true;
+  i_acted : forall t, acted (gh (gt s t)) = true -> creq (gh (gt s t)) = true;
   (* the start function *)
   i_runs0 : forall k, started_pc (main (gt s k)) = false -> runs (gh (gt s k)) = 0 /\ got (gh (gt s k)) = None;
   i_runs1 : forall k, started_pc (main (gt s k)) = true ->
@@ -320,7 +325,7 @@ Ltac simp :=
          ST_FREE_READY2, ST_READY, ST_BLOCKED, ST_FREE_READY in *;
   cbn [reap_pc join_pc holds_main holds_cb started_pc finishing_pc fin_cb orb andb negb
        pc_is_nothread exists_thread opt_is_none In
-       status join_thread detached lockh result main cb gh
+       status join_thread detached lockh result main cb gh cancelled cancel_enabled set_cancelled set_cancel_enabled creq acted g_creq g_acted
        set_status set_jt set_detached set_lockh set_result set_main set_cb set_gh unlock new_thread
        runs garg got retv claimed rdone reaped desc_alloc desc_freed stack_alloc stack_freed stack_sz t_ret t_ready2
        g_started g_returned g_claim g_rdone g_reap g_free_stack g_ready2 tnone ghost0 thread_main0] in *.
@@ -446,6 +451,9 @@ Ltac target_inr HI :=
                end in
       lazymatch goal with _ : t < length (thr s) |- _ => fail | _ => idtac end;
       assert (t < length (thr s)) by (apply main_inr; apply (i_claim _ HI j t); rewrite H; cbn [reap_pc]; apply Nat.eqb_refl)
+  | H : main (gt ?s ?j) = KCancel ?t |- _ =>
+      lazymatch goal with _ : t < length (thr s) |- _ => fail | _ => idtac end;
+      assert (t < length (thr s)) by (apply main_inr; exact (i_ktarget _ HI j t H))
   end.
 
 Ltac intro_vars :=
